@@ -39,7 +39,9 @@ func (c *sortSliceChecker) VisitExpr(expr ast.Expr) {
 	}
 	switch qualifiedName(call.Fun) {
 	case "sort.Slice", "sort.SliceStable":
-		// OK.
+		if !isPkgFunc(c.ctx, call.Fun, "sort") {
+			return // A namesake of the sort package.
+		}
 	default:
 		return
 	}
